@@ -311,10 +311,9 @@ def run(ctx):
     ctx.assumptions = ["PARTIAL: only the modelled shared state {mailboxes, notifier flags, search, quitFlag, search parameters, ponder/infinite, "
                        "pendingOptions, optionsSetFinished, option values, TT geometry/generation}; the property says 'any memory location', "
                        "which only a whole-program detector sees",
-                       "ordering of the helpers' reads of option values / TT geometry against the writers (ownership transfer over the START / STOP_ACK "
-                       "message edges): proved in Coq for the single-level communicator tree (Threads <= 5, createWorkers' maxChildren = 4) and any number of "
-                       "helpers (C09_helper_reads_ordered / C09_model_drf_single_level); for deeper trees (Threads >= 6) it is checked on recorded traces only "
-                       "(C09_model_drf_statement); every pair of accesses by the UCI and engine threads is proved for every tree",
+                       "the model's access annotations are the code: checked on the recorded traces only (lock set at every logged access equals the model's, "
+                       "no race found by two detectors); the race freedom of the MODEL itself is proved for every N, tree and schedule (C09_model_drf), including the "
+                       "helpers' reads of option values / TT geometry ordered over the START / STOP_ACK message edges",
                        "compiler/CPU implement mutexes and seq_cst atomics as the C++ memory model says; ponder/infinite are treated as relaxed (no ordering derived)"]
     ctx.notes["locations_covered"] = sorted(LOCNAME.values())
     ctx.notes["not_covered"] = ("all locations outside the list above: evaluator/NN tables, history/killer tables, transposition table entries (C08), "
